@@ -283,6 +283,7 @@ func CfgC04() PropCfg {
 	w.PlaceBid, w.ModifyBid, w.Block = 40, 14, 16
 	w.PerturbPct = 4
 	w.MaxAuctions = 3
+	w.FaultBlock = 3 // a refund that fails must fail the block, not be skipped
 	return PropCfg{ID: "C04", Weights: w, MinOps: 12, MaxOps: 60, DrivePct: 95,
 		New: func() Monitor { return monC04{} },
 		NonTrivial: func(h *History) bool {
@@ -335,6 +336,12 @@ func (monC05) Step(h *History, st *Step) []Violation {
 		for to, got := range f.S {
 			if to == a.Auctioneer {
 				continue
+			}
+			// everything the bidder has received from this auction's selling escrow so far, not only
+			// in this block (a settlement that was interrupted and repeated pays in several blocks)
+			if all := flowOf(h.OutS, a.ID, to); all.Cmp(got) > 0 {
+				got = all
+				h.Label("c05:paid-in-more-than-one-block")
 			}
 			total.Add(total, got)
 			cap := rec.Caps[to]
@@ -400,6 +407,7 @@ func CfgC05() PropCfg {
 	w := DefaultWeights()
 	w.PlaceBid, w.ModifyBid, w.UpdateAllowed, w.AddAllowed, w.Block = 40, 14, 12, 10, 16
 	w.PerturbPct = 10
+	w.FaultBlock = 3 // a settlement interrupted by a failing bank transfer must not pay anybody twice
 	return PropCfg{ID: "C05", Weights: w, MinOps: 12, MaxOps: 60, DrivePct: 90,
 		New: func() Monitor { return monC05{} },
 		NonTrivial: func(h *History) bool {
